@@ -176,7 +176,7 @@ theorem alMalloc_ok (g : Cfg) (h : Nat) (s s' : St) (size : Nat) (c : Choice) (y
       · cases hg
   · rename_i hsz
     obtain ⟨rfl, rfl⟩ := Prod.mk.inj (Except.ok.inj hg)
-    obtain ⟨h1, h2, h3, _⟩ := alloc_ok g h s size [] hi (fun _ => .inl (by omega))
+    obtain ⟨h1, h2, h3, _⟩ := alloc_ok g h s size [] hi (fun _ => .inl (.inl (by omega)))
     refine ⟨h1, h2, h3, Nat.le_of_eq (alloc_cap s size []).symm, rfl, ?_⟩
     intro r hr _; show s.regions.length ≠ r; omega
 
@@ -223,9 +223,11 @@ theorem alFree_core (g : Cfg) (h : Nat) (s : St) (x : Handle) (tag : Nat) (hi : 
   · rename_i hc
     refine poolPut_core g h s _ tag x.rid hi hs (fun _ => ?_)
     have hac := hi.acap hk x.rid hs.1
-    rcases hac with hbig | ⟨i, hi', hci⟩
-    · exfalso; apply hc; right; exact hbig
+    rcases hac with (hbig | ⟨i, hi', hci⟩) | h0 | hmod
+    · exfalso; apply hc; right; right; exact hbig
     · rw [hci, classOf_classSize i hi']
+    · exfalso; apply hc; left; exact h0
+    · exfalso; apply hc; right; left; exact hmod
 
 theorem alFree_ok (g : Cfg) (h : Nat) (s0 s : St) (x y : Handle) (tag : Nat) (ok : OpOK g h s0 s y)
     (hs : scratch h s x.rid) (hne : x.rid ≠ y.rid) (hk : g.kind = .aligned) : OpOK g h s0 (alFree s x tag) y := by
@@ -235,9 +237,11 @@ theorem alFree_ok (g : Cfg) (h : Nat) (s0 s : St) (x y : Handle) (tag : Nat) (ok
   · rename_i hc
     refine poolPut_ok g h s0 s y _ tag x.rid ok hs hne (fun _ => ?_)
     have hac := ok.inv.acap hk x.rid hs.1
-    rcases hac with hbig | ⟨i, hi', hci⟩
-    · exfalso; apply hc; right; exact hbig
+    rcases hac with (hbig | ⟨i, hi', hci⟩) | h0 | hmod
+    · exfalso; apply hc; right; right; exact hbig
     · rw [hci, classOf_classSize i hi']
+    · exfalso; apply hc; left; exact h0
+    · exfalso; apply hc; right; left; exact hmod
 
 theorem alRealloc_ok (g : Cfg) (h : Nat) (s s' : St) (x y : Handle) (size tag : Nat) (c : Choice)
     (hi : Inv g s) (hx : s.lookup h = some x) (hk : g.kind = .aligned)
